@@ -4,6 +4,7 @@ import (
 	"fmt"
 	"os"
 	"time"
+
 	"go/types"
 	"sort"
 	"strings"
@@ -61,6 +62,13 @@ type Ctx struct {
 	decodeCache map[string]decodeRes
 	forks       []*FState
 	pendingObs  []pendingOb
+	concrete    *replayFile
+	dbgModel    map[string]uint64
+	dbgPendingModel map[string]uint64
+	dbgChoices  map[string]int
+	dbgOrder    []dbgRec
+	dbgPer      map[ssa.Instruction][]string
+	dbgMemo     map[int]uint64
 
 	// monitors
 	guards    []*guardRec
@@ -500,4 +508,94 @@ func (c *Ctx) itersDiffer(a, b *Heap) bool {
 		}
 	}
 	return false
+}
+
+type replayFile struct {
+	Entry   string            `json:"entry"`
+	Choices map[string]int    `json:"choices"`
+	Vars    map[string]uint64 `json:"vars"`
+	Params  map[string]int    `json:"params"`
+}
+
+type dbgRec struct {
+	in  ssa.Instruction
+	val string
+	fn  string
+}
+
+// dbgRecord (differential debugging, -diffreplay): records the value of the instruction's result under the model,
+// for states whose path condition is true under the model.
+func (c *Ctx) dbgRecord(fs *FState, in ssa.Instruction) {
+	v, ok := in.(ssa.Value)
+	if !ok {
+		return
+	}
+	for _, t := range fs.st.pc {
+		if evalTerm(t, c.dbgModel, c.dbgMemo) == 0 {
+			return
+		}
+	}
+	idx, ok := fs.fi.regIdx[v]
+	if !ok || fs.regs[idx] == nil {
+		return
+	}
+	val := c.dbgValue(fs.st, fs.regs[idx], 0)
+	c.dbgOrder = append(c.dbgOrder, dbgRec{in, val, fs.fi.fn.String()})
+	c.dbgPer[in] = append(c.dbgPer[in], val)
+}
+
+func (c *Ctx) dbgValue(st *State, v Value, depth int) string {
+	if depth > 3 {
+		return "…"
+	}
+	switch x := v.(type) {
+	case *Term:
+		return fmt.Sprint(evalTerm(x, c.dbgModel, c.dbgMemo))
+	case *Str:
+		if x.opaque {
+			return "opaque"
+		}
+		b := make([]byte, len(x.b))
+		for i, t := range x.b {
+			b[i] = byte(evalTerm(t, c.dbgModel, c.dbgMemo))
+		}
+		return fmt.Sprintf("%q", string(b))
+	case *Union:
+		for _, al := range x.alts {
+			if evalTerm(al.g, c.dbgModel, c.dbgMemo) != 0 {
+				return c.dbgValue(st, al.v, depth)
+			}
+		}
+		return "union-no-alt"
+	case *Ptr:
+		if x.obj == 0 {
+			return "nil"
+		}
+		return "ptr"
+	case *Slice:
+		return fmt.Sprintf("slice(len %d)", x.n)
+	case *Struct:
+		s := "{"
+		for _, f := range x.f {
+			s += c.dbgValue(st, f, depth+1) + " "
+		}
+		return s + "}"
+	case *Tuple:
+		s := "("
+		for _, f := range x.v {
+			s += c.dbgValue(st, f, depth+1) + " "
+		}
+		return s + ")"
+	case *Iface:
+		if x.t == nil {
+			return "nil-iface"
+		}
+		return "iface"
+	case *MapRef:
+		if x.obj == 0 {
+			return "nil-map"
+		}
+		return "map"
+	}
+	return fmt.Sprintf("%T", v)
 }
